@@ -30,6 +30,7 @@ struct ConcPolicy {
   static W poison(const char*) { return W{0xDEADBEEFu, K_UNDEF, 0}; }
 
   static bool suspicious_int(uint32_t) { return false; }
+  static bool int_is_lane(uint32_t, W&) { return false; }
   static Kind kind(W w) { return (Kind)w.k; }
   static bool bits(W w, uint32_t& b) { if ((w.k == K_REAL || w.k == K_INT) && w.lit) { b = w.b; return true; } return false; }
   static W int_from_bits(uint32_t b) { return W{b, K_INT, 1}; }
